@@ -42,6 +42,11 @@ RUNS = {
         {"name": "K4-read-boundaries", "mode": "k13", "budget": (150, 4000), "nontrivial": r"^rtyp=(117|41) ", "keyfn": "k4"},
         {"name": "K6-client-sizing", "mode": "kneg", "budget": (1500, 30000), "nontrivial": r"ok=1", "keyfn": "generic"},
     ],
+    "C18": [
+        {"name": "K1-recycling-histories", "mode": "k18", "budget": (1500, 40000), "nontrivial": r"recv1=msg", "keyfn": "k2"},
+        {"name": "K4-args-and-read-data", "mode": "k4", "budget": (3000, 60000), "nontrivial": r" c\d+=|^rtyp=117", "keyfn": "k4"},
+        {"name": "K4-read-buffer-reuse", "mode": "k13", "budget": (60, 1500), "nontrivial": r"^rtyp=(117|41) ", "keyfn": "k4"},
+    ],
     "C02": [
         {"name": "K2-framing", "mode": "k2", "budget": (1500, 40000), "nontrivial": r"recv\d+=(msg|proto)", "keyfn": "k2"},
     ],
@@ -50,6 +55,21 @@ RUNS = {
 NOT_YET = {}
 
 PROPS = {
+    "C18": {
+        "level_text": "Proof: decoding into a recycled object is modelled explicitly (decInto: scalar fields assigned, slice fields appended to unless "
+                      "reset); with every slice reset it equals decoding into a fresh object whatever the object held (induction over the layout), and "
+                      "the regenerated facts - every leaf field of each of the 65 message structs is assigned by decode, every slice is truncated first, "
+                      "registry.put clears the payload, recv reuses a payload buffer only at exactly the needed length as a read vector, read buffers "
+                      "are zeroed on cleanup - are decided over the current messages.go/transport.go; a missing reset provably leaks the old rows.",
+        "level_note": "Trusted: Lean kernel; the extractor's reading of decode bodies (assignments, x = x[:0] resets) and of the three buffer-handling "
+                      "statements (matched textually); Go slice aliasing and sync.Pool behaviour are not modelled. Tie: K1-recycling-histories (same-type "
+                      "messages long/short/empty in every order through the real recv with put() recycling, decoded values vs. the frame alone under the "
+                      "protocol table), K4 (backend arguments vs. the request alone, Rread data vs. what the backend wrote), k13 (pooled read buffers).",
+        "rule": "k18: per case 2..6 frames of one type with size classes long/short/empty in 6 orders (types with slices/payloads weighted), other "
+                "messages interleaved in a third of the gaps; all decoded through one process-wide cache. Non-trivial: at least two messages decoded.",
+        "assumptions": [],
+        "trusted_base": ["Wire/Recycle.lean: model of decode acting on a used object"],
+    },
     "C13": {
         "level_text": "Proof: the count tread.handle passes to the backend is min(count, msize-11), so 11+n <= msize for every count 0..2^32-1 and every "
                       "msize >= 11 (a Tread itself needs 23); Rreaddir packs whole entries within min(count, msize-11) bytes (fit_length_le) so its frame "
